@@ -141,6 +141,9 @@ def gen(ctx, cfg, defines, mode="mc", num=0, depth=0, timeout=600):
                 defines=defines, timeout=timeout, count=False)
     if not r.ok:
         raise vlib.MachineryError("GenSlb %s failed: %s %s" % (cfg, r.error or r.violation, r.out[-500:]))
+    if not r.cases:
+        # vacuity guard: a generator whose bounds never let a behaviour reach its full length prints nothing
+        raise vlib.MachineryError("GenSlb %s %s generated no behaviour" % (cfg, defines))
     return r.cases
 
 
@@ -187,9 +190,16 @@ def check_c01(ctx):
     ctx.cov["constants"]["Gen_C01_focus"] = g3
     cases += gen(ctx, "Gen_C01.cfg", g3, timeout=1500)
     for n, num in ((3, 300), (4, 300)) if q else ((3, 2500), (4, 1500), (5, 800)):
-        g2 = {"N": n, "WLO": 0, "WHI": 4 if n < 5 else 3, "PICKS": 30, "UPDATES": 1, "OPS": 34, "SCALE": 100,
+        # OPS must not exceed PICKS: a behaviour is printed when it has exactly OPS operations
+        g2 = {"N": n, "WLO": 0, "WHI": 4 if n < 5 else 3, "PICKS": 30, "UPDATES": 1, "OPS": 28, "SCALE": 100,
               "ANYORDER": "TRUE" if n < 5 else "FALSE"}
-        cases += gen(ctx, "Gen_C01.cfg", g2, mode="sim", num=num, depth=40)
+        cases += gen(ctx, "Gen_C01.cfg", g2, mode="sim", num=num, depth=34)
+    # sub-clusters that also contain disabled members (weight 0 or negative, e.g. -1): the shares of the
+    # positive-weight backends must not be affected by them
+    for n, num in ((3, 200),) if q else ((3, 1500), (4, 1000)):
+        g4 = {"N": n, "WLO": 1, "WHI": 3, "PICKS": 24, "UPDATES": 1, "OPS": 22, "SCALE": 100, "ANYORDER": "TRUE"}
+        ctx.cov["constants"]["Gen_C01_negative_N%d" % n] = g4
+        cases += gen(ctx, "Gen_C01.cfg", g4, mode="sim", num=num, depth=28)
     cases += random_cases(ctx, 40 if q else 400, 6, 12 if q else 30, 150 if q else 400, ["smooth"], flips=True)
     ctx.cov["exhaustive"] = False
     run_cases(ctx, slowstart_end_cases(ctx, 6 if q else 40), twin=False, label="C01-slowstart-end",
